@@ -133,6 +133,8 @@ def make_plugin(w: World, tag: str = 'G'):
                 info['trace_modules'] = ra.trace_modules if ra else None
             if hook == 'on_initialize_run' and ra is not None:
                 info['script_id'] = ident_of(ra.statement)
+                info['trace_threads'] = ra.trace_threads
+                info['trace_modules'] = ra.trace_modules
             n = len(w.gates.setdefault(hook, []))
             info['n'] = n
             gate = asyncio.Event()
@@ -330,6 +332,32 @@ async def run_scenario(w: World):
             w.extra_plugins[step[1]] = make_plugin(w, step[1])
             w.nl.register(w.extra_plugins[step[1]])
             w.log(k='registered', plugin=step[1])
+        elif op == 'register_failing':
+            # a plugin whose part of the run session fails: step[2] = 'run_ctx' (the `run` context manager raises
+            # on entry, before any child is spawned) | a hook name (that hook raises)
+            import contextlib
+            from nextline.plugin.spec import hookimpl
+
+            class Failing:
+                pass
+            what = step[2]
+            if what == 'run_ctx':
+                @hookimpl
+                @contextlib.asynccontextmanager
+                async def run(self, context):
+                    w.log(k='failing', plugin=step[1], what=what)
+                    raise RuntimeError('verif: the run session of this plugin fails')
+                    yield
+                Failing.run = run
+            else:
+                ns = {}
+                exec(f'async def {what}(self, context):\n    _log()\n    raise RuntimeError("verif: this hook fails")\n',
+                     {'_log': lambda: w.log(k='failing', plugin=step[1], what=what)}, ns)
+                setattr(Failing, what, hookimpl(ns[what]))
+            w.extra_plugins = getattr(w, 'extra_plugins', {})
+            w.extra_plugins[step[1]] = Failing()
+            w.nl.register(w.extra_plugins[step[1]])
+            w.log(k='registered_failing', plugin=step[1], what=what)
         elif op == 'unregister':
             pl = getattr(w, 'extra_plugins', {}).pop(step[1], None)
             if pl is not None:
@@ -434,6 +462,12 @@ def main():
     logging.disable(logging.CRITICAL)
     try:
         asyncio.run(go())
+    except BaseException as e:
+        # an exception that escaped the event loop itself (asyncio re-raises KeyboardInterrupt / SystemExit
+        # raised inside a task): the application is gone.  from_impl: it came through nextline's code.
+        import traceback
+        tb = traceback.format_exc()
+        w.log(k='loop_crashed', err=type(e).__name__, from_impl='nextline' in tb.replace('/verif/', ''), tb=tb[-1500:], state='?', alive=0)
     finally:
         sys.stdout.write('@@OBS ' + json.dumps(w.obs, default=repr) + '\n')
         sys.stdout.flush()
